@@ -376,7 +376,7 @@ impl Prop for C13 {
         "C13"
     }
     fn rule(&self) -> &'static str {
-        "cases = request grammar (9 methods; target '/' + bytes other than SP/CR/LF incl. non-UTF-8 and NUL, 0..60 bytes; HTTP/d+.d+; 0..5 'name:value' header lines with arbitrary value bytes; CRLF or bare LF chosen per line; optional trailing bytes) x transport (UDP datagram / one segment, or two segments cut anywhere behind the signature, on a handshaken TCP flow) x both IP versions x random ports x log level Off..Trace (the 401 path logs verb and target at Warn), and single-fault corruptions: unknown method (not completing any signature), byte of 'HTTP/' replaced, non-digit version, missing version, header line without colon, terminating empty line removed, truncation at every position before the end, a CR inside a header field name. Keep-alive: 1..3 complete requests, one per segment of ONE connection, optionally followed by one more request that is well-formed or carries one of the faults: every complete request is answered as above, the faulty one is not (nothing is judged after a faulty request). Oracle: independent LF-tolerant response parser: status line HTTP/1.1 401, WWW-Authenticate present, Content-Length = number of body bytes; faulty requests get no application reply (UDP silence, TCP bare ACK). Non-trivial = every case (decides one request); distinct by hash of (bytes, transport)."
+        "cases = request grammar (9 methods; target '/' + bytes other than SP/CR/LF incl. non-UTF-8 and NUL, 0..60 bytes; HTTP/d+.d+; 0..5 'name:value' header lines with arbitrary value bytes; CRLF or bare LF chosen per line; optional trailing bytes) x transport (UDP datagram / one segment, or two segments cut anywhere behind the signature, on a handshaken TCP flow) x both IP versions x random ports x log level Off..Trace (the 401 path logs verb and target at Warn), and single-fault corruptions: unknown method (not completing any signature), byte of 'HTTP/' replaced, non-digit version, missing version, header line without colon, terminating empty line removed, truncation at every position before the end, a CR inside a header field name. Keep-alive: 1..3 complete requests, one per segment of ONE connection, optionally followed by one more request that is well-formed or carries one of the faults: every complete request is answered as above, the faulty one is not (nothing is judged after a faulty request). Oracle: independent LF-tolerant response parser: status line HTTP/1.1 401, WWW-Authenticate present, Content-Length = number of body bytes; faulty requests get no application reply (UDP silence, TCP bare ACK). Non-trivial = every case (decides one request); distinct by hash of (bytes, transport). Shadow traffic (vf/shadow.rs): three cases in ten process, before every frame of the case, a sibling of that frame whose result is discarded — the same frame again, or one tuple element (source / destination port, source / destination address, source MAC), one payload bit or the payload length changed; TCP conversations are shadowed whole on a sibling flow validated with its own cookie; sound by the statement of C08, cases whose own flows meet a shadow tuple are excluded and counted."
     }
     fn run(&self, ctx: &mut RunCtx) {
         let n = ctx.share(ctx.tier.n(2_000_000, 16_000_000));
